@@ -83,6 +83,7 @@ class CompositeType(SerializableType):
         self._fixed_port_id = None if fixed_port_id is None else int(fixed_port_id)
         self._source_file_path = Path(source_file_path)
         self._has_parent_service = bool(has_parent_service)
+        self._alignment_requirement = None  # type: typing.Optional[int]
 
         self._doc = doc
 
@@ -292,7 +293,13 @@ class CompositeType(SerializableType):
     def alignment_requirement(self) -> int:
         # This is more general than required by the Specification, but it is done this way in case if we decided
         # to support greater alignment requirements in the future.
-        return max([self.BITS_PER_BYTE] + [x.data_type.alignment_requirement for x in self.fields])
+        # The result is kept because otherwise every query would traverse the entire tree of nested composites again,
+        # which takes time exponential in the nesting depth when a type holds several fields of the same nested type.
+        if self._alignment_requirement is None:
+            self._alignment_requirement = max(
+                [self.BITS_PER_BYTE] + [x.data_type.alignment_requirement for x in self.fields]
+            )
+        return self._alignment_requirement
 
     @property
     def has_parent_service(self) -> bool:
